@@ -205,9 +205,66 @@ def shard(ctx):
                 ctx.violation(sig, d, {"kind": "invalid", "label": label, "text": itext})
 
     run()
+    # input types that reach themselves through a field WITH a default (the default literal closes the cycle explicitly)
+    for i, case in enumerate(CYCLIC_DEFAULTS):
+        if i % ctx.nshards == ctx.shard:
+            for sig, det in check_cyclic_default(case):
+                ctx.violation(sig, det, {"kind": "cyclic-default", "case": case})
+            ctx.case(key=("cyclic-default", case["sdl"]), nontrivial=True, sample=case)
+            ctx.event("cyclic-input-default")
+
+
+def _cyclic_defaults():
+    """(sdl, expected python defaults by 'Type.field' / 'Type.field(arg)').  Every literal gives each self-typed field that has
+    a default explicitly, so every expected value is finite and fixed by the input-coercion rules alone."""
+    out = []
+    for w, lit, py in (("A", "{a: null}", {"a": None}), ("A", "{a: null, b: 3}", {"a": None, "b": 3}), ("A", "null", None),
+                       ("[A!]", "[]", []), ("[A!]", "[{a: []}]", [{"a": []}]), ("[A]", "[null, {a: null}]", [None, {"a": None}]),
+                       ("A", "{a: {a: null}}", {"a": {"a": None}})):
+        for order in (0, 1):
+            body = ["a: %s = %s" % (w, lit), "b: Int"]
+            q = "type Query { f(x: A): Int }"
+            i = "input A { %s }" % " ".join(body if order == 0 else body[::-1])
+            out.append({"sdl": " ".join([q, i] if order == 0 else [i, q]), "expect": {"A.a": py}})
+    out.append({"sdl": "type Query { f(x: A): Int } input A { b: B = {a: null} } input B { a: A = {b: null} }",
+                "expect": {"A.b": {"a": None}, "B.a": {"b": None}}})
+    out.append({"sdl": "input B { a: A = {b: null} k: Int = 2 } input A { b: B = {a: null, k: 5} } type Query { f(x: B): Int }",
+                "expect": {"A.b": {"a": None, "k": 5}, "B.a": {"b": None}}})
+    out.append({"sdl": "type Query { f(x: A = {a: {a: null}}): Int } input A { a: A = {a: null} }",
+                "expect": {"A.a": {"a": None}, "Query.f(x)": {"a": {"a": None}}}})
+    return out
+
+
+CYCLIC_DEFAULTS = _cyclic_defaults()
+
+
+def check_cyclic_default(case):
+    from py_gql import build_schema
+    try:
+        schema = build_schema(case["sdl"])
+    except BaseException as e:  # noqa
+        return [("C11/rejects-valid-sdl/%s/input-type-cycle-closed-by-a-default" % type(e).__name__, "%s: %r" % (case["sdl"], str(e)[:80]))]
+    vios = []
+    for where, want in case["expect"].items():
+        tn, rest = where.split(".")
+        try:
+            if "(" in rest:
+                fn, an = rest[:-1].split("(")
+                holder = schema.types[tn].field_map[fn].argument_map[an]
+            else:
+                holder = schema.types[tn].field_map[rest]
+            got = holder.default_value if holder.has_default_value else "<no default>"
+        except BaseException as e:  # noqa
+            vios.append(("C11/structure-unreadable/%s/input-type-cycle-closed-by-a-default" % type(e).__name__, "%s at %s" % (case["sdl"], where)))
+            continue
+        if got != want:
+            vios.append(("C11/structure-differs/default/input-type-cycle-closed-by-a-default", "%s: %s = %r, declared %r" % (case["sdl"], where, got, want)))
+    return vios
 
 
 def replay(case):
+    if case.get("kind") == "cyclic-default":
+        return check_cyclic_default(case["case"])
     if case.get("kind") == "invalid":
         return check_invalid(case["label"], case["text"])
     return check_valid(case["case"])
